@@ -236,6 +236,9 @@ func assignOne(destValue reflect.Value, taken any, to string) (reflect.Value, er
 		originalDestValue = destValue
 		parentMap         reflect.Value
 		parentKey         string
+		// the element of parentMap at parentKey the walk is currently inside of. Map elements are not addressable,
+		// so it is an (addressable) copy that is written back once the walk enters another map or ends.
+		parentElem reflect.Value
 	)
 
 	for {
@@ -268,7 +271,7 @@ func assignOne(destValue reflect.Value, taken any, to string) (reflect.Value, er
 				}
 
 				if parentMap.IsValid() {
-					parentMap.SetMapIndex(reflect.ValueOf(parentKey), destValue)
+					parentMap.SetMapIndex(reflect.ValueOf(parentKey), parentElem)
 				}
 
 				return originalDestValue, nil
@@ -286,7 +289,7 @@ func assignOne(destValue reflect.Value, taken any, to string) (reflect.Value, er
 			}
 
 			if parentMap.IsValid() {
-				parentMap.SetMapIndex(reflect.ValueOf(parentKey), destValue)
+				parentMap.SetMapIndex(reflect.ValueOf(parentKey), parentElem)
 			}
 
 			return originalDestValue, nil
@@ -313,20 +316,25 @@ func assignOne(destValue reflect.Value, taken any, to string) (reflect.Value, er
 			if !valueValue.IsValid() {
 				valueValue = newInstanceByType(destValue.Type().Elem())
 				destValue.SetMapIndex(keyValue, valueValue)
+			} else {
+				// an element filled by another mapping: continue on an addressable copy of it
+				existing := valueValue
+				valueValue = reflect.New(destValue.Type().Elem()).Elem()
+				valueValue.Set(existing)
 			}
 
 			if parentMap.IsValid() {
-				parentMap.SetMapIndex(reflect.ValueOf(parentKey), destValue)
+				parentMap.SetMapIndex(reflect.ValueOf(parentKey), parentElem)
 			}
 
 			parentMap = destValue
 			parentKey = path
+			parentElem = valueValue
 			destValue = valueValue
 
 			continue
 		}
 
-		ptrValue := destValue
 		for destValue.Kind() == reflect.Ptr {
 			destValue = destValue.Elem()
 		}
@@ -345,12 +353,6 @@ func assignOne(destValue reflect.Value, taken any, to string) (reflect.Value, er
 		}
 
 		instantiateIfNeeded(field)
-
-		if parentMap.IsValid() {
-			parentMap.SetMapIndex(reflect.ValueOf(parentKey), ptrValue)
-			parentMap = reflect.Value{}
-			parentKey = ""
-		}
 
 		destValue = field
 	}
